@@ -45,7 +45,7 @@ func c05tree(max int) (*MutableTree, []byte, *modelkv.Store) {
 	return tree, root, ref
 }
 
-// VerifC05: for an ARBITRARY 1-byte key the committed tree returns, with the value, a proof that
+// VerifC05: for an ARBITRARY 1-byte key, and an arbitrary 2-byte key, the committed tree returns, with the value, a proof that
 // verifies against the version's root hash — an existence proof for the stored value if the key is
 // present, an absence proof if not (keys before the first and after the last leaf included). And
 // nothing else verifies: a different root, a different value, existence for an absent key, absence
@@ -53,7 +53,7 @@ func c05tree(max int) (*MutableTree, []byte, *modelkv.Store) {
 // injective).
 func VerifC05() {
 	tree, root, ref := c05tree(4)
-	p := v.Bytes(1)
+	p := v.Bytes(1 + v.Choice(2)) // a 1-byte key, or a 2-byte key (never stored: it may extend a stored key)
 	want := ref.GetRaw(p)
 	value, proof, err := tree.GetVersionedWithProof(p, 1)
 	v.Assert(err == nil && proof != nil, "proof-produced")
@@ -65,7 +65,9 @@ func VerifC05() {
 		other := v.Bytes(1)
 		v.Assert(v.Implies(!bytes.Equal(other, value), proof.VerifyItem(p, other) != nil), "another-value-refused")
 	} else {
-		v.Assert(proof.VerifyAbsence(p) == nil, "absence-proof-accepted")
+		// known defect C05-K1: the probe extends a stored key that is not the last leaf
+		ext := len(p) == 2 && ref.GetRaw(p[:1]) != nil
+		v.AssertK(proof.VerifyAbsence(p) == nil, "absence-proof-accepted", v.Known("C05-K1", ext))
 		v.Assert(proof.VerifyItem(p, v.Bytes(1)) != nil, "existence-of-an-absent-key-refused")
 	}
 	// the same proof presented for ANOTHER key: it must not prove absence of a key that is stored
